@@ -139,6 +139,7 @@ type Party struct {
 	fresh      []*protocol.Message // emitted since the last Take
 	Panic      string              // first panic observed in a call on this party ("" = none)
 	PanicFrame string
+	PanicStack string
 	Hung       string // non-empty: a call did not return; holds the goroutine dump
 }
 
@@ -170,6 +171,7 @@ func (p *Party) call(f func()) {
 			if r[0] != "" && p.Panic == "" {
 				p.Panic = r[0]
 				p.PanicFrame = repoFrame(r[1])
+				p.PanicStack = r[1]
 			}
 			p.drain()
 			return
